@@ -1,8 +1,111 @@
-(** * Properties_C12 — theorems only (proofs are in Store/Proofs*.v) *)
-From Coq Require Import List NArith Bool.
-From V Require Import Common.Bytes Store.Fs Store.Ops.
-Import ListNotations.
+(** * Properties_C12 — a crash at any point leaves a store in which every resolvable model is intact.
+    Theorems only; the proofs are in Store/Proofs*.v.
 
-Theorem C12_crash_zero : forall size_of s o, crash size_of s o 0 = s.
-Proof. reflexivity. Qed.
-Print Assumptions C12_crash_zero.
+    Every operation of the model (Store/Ops.v) is a program that emits atomic file-system effects; the server dying
+    after the first [k] effects of operation [o] started in store [s] leaves [crash s o k]; the restart runs the
+    start-up sequence of server.Serve ([recover]).  [guards]: as in Properties_C04, every operation (completed or
+    interrupted) meets its decidable guard in the store it starts in. *)
+From Coq Require Import List NArith Bool.
+From V Require Import Common.Bytes Store.Fs Store.Ops Store.ProofsAlist Store.ProofsNames Store.ProofsInv Store.ProofsOps Store.ProofsTop Store.ProofsMore Store.ProofsRedo.
+Import ListNotations.
+Open Scope N_scope.
+
+(** For every store reachable by any history of completed operations, crashes (at any effect prefix of any operation)
+    and restarts, every operation, every prefix of its effect list: already before the restart, and after it, every
+    manifest that decodes has all its layers and its config present, intact and of the recorded size; the manifests of
+    the models the operation does not name, and the blobs they use, are exactly as before the operation. *)
+Theorem C12_crash_sound : forall size_of es o k,
+  guards size_of empty_store es ->
+  let s := ev_run size_of empty_store es in
+  op_guard size_of s o = true ->
+  let c := crash size_of s o k in
+  let s' := recover size_of c in
+  (forall n m l, (mget n c = Some (Readable m) \/ mget n s' = Some (Readable m)) -> In l (all_layers m) ->
+     dcolon (ldg l) = true /\ bget (dhex (ldg l)) s' = Some (dhex (ldg l)) /\ lsz l = size_of (dhex (ldg l))) /\
+  (forall n, op_target s o <> Some n ->
+     mget n s' = mget n s /\
+     forall m l, mget n s = Some (Readable m) -> In l (all_layers m) -> bget (dhex (ldg l)) s' = bget (dhex (ldg l)) s).
+Proof.
+  intros size_of es o k Hg s Hgo c s'.
+  assert (HI : Inv size_of s) by (apply ev_run_inv; [apply Inv_empty | exact Hg]).
+  assert (HIc : Inv size_of c) by (apply crash_inv; assumption).
+  assert (HIs : Inv size_of s') by (apply recover_inv, HIc).
+  split.
+  - intros n m l [Hm|Hm] Hl.
+    + apply (inv_listed_complete size_of s' n m l HIs); [|exact Hl].
+      destruct (recover_frame size_of c n HIc) as [H1 _]. fold s' in H1. rewrite H1. exact Hm.
+    + apply (inv_listed_complete size_of s' n m l HIs Hm Hl).
+  - intros n Hn. destruct (prefix_frame size_of s o k n HI Hgo Hn) as [P1 P2]. fold c in P1, P2.
+    destruct (recover_frame size_of c n HIc) as [R1 R2]. fold s' in R1, R2.
+    split; [congruence|]. intros m l Hm Hl.
+    rewrite (R2 m l); [apply (P2 m l); [apply mget_listed, Hm | exact Hl] | | exact Hl].
+    apply mget_listed. rewrite P1. exact Hm.
+Qed.
+Print Assumptions C12_crash_sound.
+
+(** The invariant behind it, for every reachable store (operations, crashes, restarts in any order). *)
+Theorem C12_reachable_inv : forall size_of es,
+  guards size_of empty_store es -> Inv size_of (ev_run size_of empty_store es).
+Proof. intros size_of es Hg. apply ev_run_inv; [apply Inv_empty | exact Hg]. Qed.
+Print Assumptions C12_reachable_inv.
+
+(** Repeating the interrupted operation after the restart: it answers as the uninterrupted run would have (a
+    delete may answer "not found": it already took effect) and leaves the same manifests — hence, both stores
+    satisfying the invariant, the same models with the same, intact blobs; they differ at most in unreferenced blobs.
+    Proved for the crash points that leave no torn manifest ([has_unreadable (crash s o k) = false]) and operations
+    that do not read their own target ([redo_ok]: a create FROM the name it creates is excluded, as is a create from
+    files, whose upload has to be repeated first, and a pull needs every layer to be downloadable again). *)
+Theorem C12_idempotent_redo_partial : forall size_of es o k,
+  guards size_of empty_store es ->
+  let s := ev_run size_of empty_store es in
+  op_guard size_of s o = true -> redo_ok s o = true ->
+  has_unreadable s = false -> has_unreadable (crash size_of s o k) = false ->
+  let s1 := recover size_of (crash size_of s o k) in
+  (forall n, mget n (exec size_of s1 o) = mget n (exec size_of s o)) /\
+  Inv size_of (exec size_of s1 o) /\ Inv size_of (exec size_of s o) /\
+  (snd (op_run size_of s1 o) = snd (op_run size_of s o) \/
+   (exists n, o = ODelete n) /\ snd (op_run size_of s1 o) = RNotFound /\ snd (op_run size_of s o) = ROk).
+Proof.
+  intros size_of es o k Hg s. apply (redo_partial size_of). apply ev_run_inv; [apply Inv_empty | exact Hg].
+Qed.
+Print Assumptions C12_idempotent_redo_partial.
+
+(** The full statement — for every crash point — is false of the faithful model: manifests are written in place
+    (create-truncate, then write), a kill between the two leaves an unreadable manifest that getExistingName does
+    not see; repeating the operation under a name that differs in letter case writes a second manifest. *)
+Definition C12_idempotent_redo_full : Prop := forall size_of es o k,
+  guards size_of empty_store es ->
+  let s := ev_run size_of empty_store es in
+  op_guard size_of s o = true -> redo_ok s o = true -> has_unreadable s = false ->
+  let s1 := recover size_of (crash size_of s o k) in
+  forall n, mget n (exec size_of s1 o) = mget n (exec size_of s o).
+
+Definition rd_a : name := MkName s_default_host s_default_ns [97] [116].   (* a:t *)
+Definition rd_A : name := MkName s_default_host s_default_ns [65] [116].   (* A:t *)
+Definition rd_b : name := MkName s_default_host s_default_ns [98] [116].   (* b:t *)
+Definition rd_sz (c : N) : N := c + 10.
+Definition rd_es : list event :=
+  [ EvOp (OBlob (MkDigest true 1) 1)
+  ; EvOp (OCreate (MkCreate rd_a (BFiles (MkDigest true 1) [(0, None)] false []) None None [] None None 30))
+  ; EvOp (OCopy rd_a rd_b) ].
+Definition rd_o : op := OCopy rd_a rd_A.   (* copy a:t onto itself under another letter case... *)
+Definition rd_o2 : op := OCreate (MkCreate rd_A (BFrom rd_b) None (Some 2) [] None None 31).  (* re-create a:t as A:t FROM b:t *)
+
+Theorem C12_idempotent_redo_refuted : ~ C12_idempotent_redo_full.
+Proof.
+  intros H. specialize (H rd_sz rd_es rd_o2 4%nat).
+  assert (Hg : guards rd_sz empty_store rd_es) by (vm_compute; repeat split).
+  specialize (H Hg eq_refl eq_refl eq_refl rd_A). vm_compute in H. discriminate.
+Qed.
+Print Assumptions C12_idempotent_redo_refuted.
+
+(** ** Non-vacuity *)
+Example C12_example_guards : guards rd_sz empty_store (rd_es ++ [EvCrash rd_o2 4; EvOp rd_o2; EvCrash (ODelete rd_b) 1; EvOp OStartup]).
+Proof. vm_compute. repeat split. Qed.
+
+Example C12_example_partial_hyps :
+  let s := ev_run rd_sz empty_store rd_es in
+  redo_ok s rd_o2 = true /\ has_unreadable s = false /\
+  has_unreadable (crash rd_sz s rd_o2 3) = false /\ has_unreadable (crash rd_sz s rd_o2 4) = true /\ has_unreadable (crash rd_sz s rd_o2 5) = false /\
+  length (effects rd_sz s rd_o2) = 7%nat.
+Proof. vm_compute. repeat split. Qed.
